@@ -234,7 +234,7 @@ pub fn check(runner: &mut Runner, case: &mut ExecCase, engines: &[Engine], st: O
 fn run(ctx: &Ctx) {
     let runner = RefCell::new(Runner::new());
     ctx.shrink_iters.set(3000);
-    let cases = ctx.share(ctx.tier.pick(16_000, 480_000));
+    let cases = ctx.share(ctx.tier.pick(64_000, 1_280_000));
     ctx.search("nested", "exec", cases, hprog(8), |p, want_case| {
         let mut case = lower(p);
         let mut st = ctx.stats();
@@ -242,7 +242,7 @@ fn run(ctx: &Ctx) {
         let v = check(&mut runner.borrow_mut(), &mut case, &[Engine::Interp, Engine::Jit], if frozen { None } else { Some(&mut st) });
         (v, if want_case { case.to_json() } else { Value::Null })
     });
-    let cases = ctx.share(ctx.tier.pick(6_400, 160_000));
+    let cases = ctx.share(ctx.tier.pick(16_000, 320_000));
     ctx.search("toplevel", "exec3", cases, hprog(0), |p, want_case| {
         let mut case = lower(p);
         let mut st = ctx.stats();
